@@ -63,6 +63,11 @@ def _scores(tier):
     out.append(("three_staves_pedal_on_the_third", lambda: G.build_part("P1", 4, notes=[("m0", 0, 8, "E", None, 5, 1, 1), ("m1", 8, 8, "D", None, 5, 1, 1), ("l0", 0, 16, "G", None, 3, 2, 2), ("p0", 0, 8, "C", None, 2, 3, 3),
                                                                                         ("p1", 8, 8, "G", None, 2, 3, 3), ("m2", 16, 16, "D", None, 4, 1, 1), ("l1", 16, 16, "B", None, 3, 2, 2), ("p2", 16, 16, "G", None, 2, 3, 3)],
                                                                         key=(0, "major"), measures=[(0, 16), (16, 32)])))
+    # voices numbered per staff as notation programs do (1-4, 5-8, 9-12): voice numbers of two digits
+    out.append(("three_staves_voices_numbered_per_staff", lambda: G.build_part("P1", 4, notes=[("m0", 0, 8, "E", None, 5, 1, 1), ("m1", 8, 8, "D", None, 5, 1, 1), ("l0", 0, 16, "G", None, 3, 5, 2), ("p0", 0, 8, "C", None, 2, 10, 3),
+                                                                                               ("p1", 8, 8, "G", None, 2, 10, 3), ("q0", 0, 16, "C", None, 3, 12, 3), ("m2", 16, 16, "D", None, 4, 1, 1), ("l1", 16, 16, "B", None, 3, 5, 2),
+                                                                                               ("p2", 16, 16, "G", None, 2, 10, 3), ("q1", 16, 16, "E", None, 3, 12, 3)],
+                                                                               key=(0, "major"), measures=[(0, 16), (16, 32)])))
     out.append(("change_to_the_relative_minor_and_back", lambda: with_keys(G.build_part("P1", 4, notes=[("n0", 0, 16, "C", None, 4, 1, 1), ("n1", 16, 16, "A", None, 3, 1, 1), ("n2", 32, 16, "E", None, 4, 1, 1)],
                                                                                          key=(0, "major"), measures=[(0, 16), (16, 32), (32, 48)]), (16, 0, "minor"), (32, 0, "major"))))
     out.append(("beat_type_changes_six_eight_to_four_four", lambda: G.build_part("P1", 4, ts=((0, 6, 8), (24, 4, 4)), notes=[("n0", 0, 12, "C", None, 4, 1, 1), ("n0b", 12, 12, "C", None, 4, 1, 1), ("n1", 24, 16, "D", None, 4, 1, 1),
@@ -93,7 +98,7 @@ def _triple(part, variant):
         on = 0.25 + float(r["onset_quarter"] - na["onset_quarter"].min()) * 0.5 + 0.003 * (k % 3)
         dur = max(0.05, float(r["duration_quarter"]) * 0.45)
         pid = "n%d" % k
-        notes.append(dict(id=pid, midi_pitch=int(r["pitch"]), note_on=on, note_off=on + dur, velocity=40 + 5 * k, track=0, channel=0))
+        notes.append(dict(id=pid, midi_pitch=int(r["pitch"]), note_on=on, note_off=on + dur, velocity=(0 if k == 2 else 40 + 5 * k), track=0, channel=0))   # (one key pressed without a sound: velocity 0)
         al.append(dict(label="match", score_id=sid, performance_id=pid))
     if variant == "partial":
         notes.append(dict(id="n900", midi_pitch=50, note_on=0.1, note_off=0.3, velocity=33, track=0, channel=0))
